@@ -142,6 +142,7 @@ func c08(p *core.Program, r *core.Report) {
 	overlapRule(p, r, "overlap-closed-intervals")
 	distinctStorageRule(p, r, "min-max-distinct-storage")
 	cornerNotCoordinateRule(p, r, "corner-not-a-coordinate")
+	boundsNotMemoisedRule(p, r, "bounds-not-memoised")
 	foldWholeGeometryRule(p, r, "fold-whole-geometry")
 	footprintRule(p, r, "coordinate-coverage", [][2]string{{"", "(*Bounds).extendFlatCoords"}})
 
@@ -726,4 +727,71 @@ func zmPairsSSA(fn *ssa.Function) (map[[2]int64]int, int64) {
 		}
 	}
 	return pairs, step
+}
+
+// boundsNotMemoisedRule (C08): a geometry does not remember its bounds.
+func boundsNotMemoisedRule(p *core.Program, r *core.Report, rule string) {
+	r.Rule(rule, "no struct type of package geom other than Bounds itself has a field (at any depth of embedding, directly or behind a pointer, slice or map) of type Bounds: the coordinates of a geometry are reachable for writing through FlatCoords(), SetCoords, the members of a collection and in-place transforms, none of which could invalidate a remembered box, so a stored box goes stale and Bounds() is no longer the minimum and maximum of the coordinates", 7)
+	pkg := p.Pkg("")
+	if pkg == nil {
+		r.Lost(rule, "geom/package", "the root package was not loaded")
+		return
+	}
+	var holds func(t types.Type, depth int) bool
+	holds = func(t types.Type, depth int) bool {
+		if depth > 6 {
+			return false
+		}
+		if namedTypeQual(t) == mod+".Bounds" {
+			return true
+		}
+		switch u := t.(type) {
+		case *types.Pointer:
+			return holds(u.Elem(), depth+1)
+		case *types.Slice:
+			return holds(u.Elem(), depth+1)
+		case *types.Array:
+			return holds(u.Elem(), depth+1)
+		case *types.Map:
+			return holds(u.Key(), depth+1) || holds(u.Elem(), depth+1)
+		case *types.Named:
+			if u.Obj().Pkg() == nil || u.Obj().Pkg().Path() != mod {
+				return false
+			}
+			if st, ok := u.Underlying().(*types.Struct); ok {
+				for i := 0; i < st.NumFields(); i++ {
+					if holds(st.Field(i).Type(), depth+1) {
+						return true
+					}
+				}
+			}
+		case *types.Struct:
+			for i := 0; i < u.NumFields(); i++ {
+				if holds(u.Field(i).Type(), depth+1) {
+					return true
+				}
+			}
+		}
+		return false
+	}
+	scope := pkg.Types.Scope()
+	names := scope.Names()
+	sort.Strings(names)
+	for _, n := range names {
+		tn, ok := scope.Lookup(n).(*types.TypeName)
+		if !ok || n == "Bounds" {
+			continue
+		}
+		st, ok := tn.Type().Underlying().(*types.Struct)
+		if !ok {
+			continue
+		}
+		bad := ""
+		for i := 0; i < st.NumFields(); i++ {
+			if holds(st.Field(i).Type(), 0) {
+				bad = fmt.Sprintf("type %s keeps a Bounds in its field %s: nothing that writes the coordinates can refresh it", n, st.Field(i).Name())
+			}
+		}
+		r.Check(bad == "", rule, "geom."+n, p.Pos(tn.Pos()), true, "holds no Bounds", bad)
+	}
 }
